@@ -50,6 +50,15 @@ type filterCase struct {
 	// starting at T0 and Q0; the planted match is the first window of the two runs. Every tube across the
 	// runs then collects tens of thousands of common k-mers in one run of hits.
 	Block int `json:"block,omitempty"`
+	// TwoLetters: both sequences are drawn over A and C only, so that words shared by chance are
+	// everywhere (k = 4: one window in sixteen): long chains of chance hits run through every tube and
+	// into the planted match.
+	TwoLetters bool `json:"two_letters,omitempty"`
+	// Chain > 0 (ordinary comparison only): Chain single shared words (k letters each) lie on the match
+	// diagonal in front of the match, Spacing letters apart (at most n-k, so that the filter's run of
+	// k-mer hits does not break): one long sparse run leads into the planted match.
+	Chain   int `json:"chain,omitempty"`
+	Spacing int `json:"spacing,omitempty"`
 }
 
 // expand is a pure function of the seed: a fixed linear congruential sequence mapped to ACGT.
@@ -64,6 +73,30 @@ func expand(seed uint64, n int) []byte {
 }
 
 func (c filterCase) sequences() (t, q []byte) {
+	t, q = c.sequences4()
+	if c.TwoLetters {
+		// A, G -> A and C, T -> C: equal letters stay equal, so the planted match keeps at most its
+		// substitutions (some of them may vanish)
+		fold := func(b []byte) []byte {
+			out := make([]byte, len(b))
+			for i, x := range b {
+				out[i] = 'A'
+				if x == 'C' || x == 'T' {
+					out[i] = 'C'
+				}
+			}
+			return out
+		}
+		if c.Self {
+			t = fold(t)
+			return t, t
+		}
+		return fold(t), fold(q)
+	}
+	return t, q
+}
+
+func (c filterCase) sequences4() (t, q []byte) {
 	if c.Self {
 		// Forward fill, one letter at a time, so that a lag Q0-T0 smaller than N gives a tandem
 		// repeat of that period: window T0 and window Q0 differ exactly at the substituted offsets
@@ -93,6 +126,11 @@ func (c filterCase) sequences() (t, q []byte) {
 	copy(q[c.Q0:c.Q0+c.N], t[c.T0:c.T0+c.N])
 	for _, p := range c.Subs {
 		q[c.Q0+p] = other(q[c.Q0+p])
+	}
+	for j := 1; j <= c.Chain; j++ {
+		if qp, tp := c.Q0-j*c.Spacing, c.T0-j*c.Spacing; qp >= 0 && tp >= 0 {
+			copy(q[qp:qp+c.K], t[tp:tp+c.K])
+		}
 	}
 	return t, q
 }
@@ -447,6 +485,20 @@ func gen(t *rapid.T) filterCase {
 		c.PreSeed, c.PreLen, c.PreSelf = 0, 0, false
 		return c
 	}
+	c.TwoLetters = rapid.IntRange(0, 9).Draw(t, "two-letters") == 4
+	if !c.Self && c.N-c.K >= 2 && rapid.IntRange(0, 7).Draw(t, "sparse-chain") == 6 {
+		c.Chain = rapid.IntRange(1, 14).Draw(t, "chain")
+		c.Spacing = c.N - c.K - rapid.IntRange(0, min(3, c.N-c.K-1)).Draw(t, "spacing-below-max")
+		// room for the chain in front of the match in both sequences, on the match diagonal
+		need := c.Chain * c.Spacing
+		lead := need + rapid.IntRange(0, 40).Draw(t, "chain-lead")
+		c.T0, c.Q0 = lead+rapid.IntRange(0, 30).Draw(t, "chain-t-extra"), lead+rapid.IntRange(0, 30).Draw(t, "chain-q-extra")
+		c.TLen = max(c.TLen, c.T0+c.N+rapid.IntRange(0, 200).Draw(t, "chain-t-tail"))
+		c.QLen = max(c.QLen, c.Q0+c.N+rapid.IntRange(0, 200).Draw(t, "chain-q-tail"))
+		if rapid.Bool().Draw(t, "chain-exact-match") {
+			c.E = 0 // (the threshold then equals the number of k-mers of the match)
+		}
+	}
 	ns := rapid.IntRange(0, c.E).Draw(t, "nsubs")
 	seen := map[int]bool{}
 	for len(c.Subs) < ns {
@@ -464,6 +516,12 @@ func classes(c filterCase) []string {
 		return []string{"low-complexity-block-in-both-sequences", vlib.NT}
 	}
 	var l []string
+	if c.TwoLetters {
+		l = append(l, "sequences-over-two-letters")
+	}
+	if c.Chain > 0 {
+		l = append(l, "sparse-chain-of-shared-words-leading-into-the-match")
+	}
 	thr := c.N + 1 - c.K*(c.E+1)
 	if len(c.Subs) >= 1 && thr >= 2 {
 		l = append(l, vlib.NT)
